@@ -517,6 +517,11 @@ class Evaluator:
             if (isinstance(a, tuple) and a[0] != "ptr") or (isinstance(b, tuple) and b[0] != "ptr"):
                 if op in ("==", "!=") and (a == 0 or b == 0):
                     return 1 if (op == "!=") else 0
+                if op in ("==", "!=") and isinstance(a, tuple) and isinstance(b, tuple):
+                    # pointer comparison of two string/function values: equal only when it is the very same value object
+                    # (two arrays holding the same text are different pointers)
+                    same = (a is b) or (a[0] == b[0] == "fn" and a == b)
+                    return (1 if same else 0) if op == "==" else (0 if same else 1)
                 raise Unknown("arithmetic on %s" % (a if isinstance(a, tuple) else b)[0])
             if isinstance(a, tuple) and isinstance(b, int) and op in ("+", "-"):
                 return (a[0], a[1], a[2] + (b if op == "+" else -b))
